@@ -32,6 +32,27 @@ Definition get_singleton_t (s : scenario) (st : fstate) (n : name) (early : bool
       end],
    get_singleton s st n early).
 
+(* doGetComponent + GetSingletonOrCreateByFactory around a creation function *)
+Definition body_with (vt : variant) (s : scenario) (crt : fstate -> name -> tres (fstate * ver))
+(st : fstate) (n : name) : tres (fstate * ver) :=
+  let (o0, r0) := get_singleton_t s st n true in
+  match r0 with
+  | Ok (st1, Some v) => (o0, Ok (st1, v))
+  | Ok (st1, None) =>
+    match begin_create (reg st1) n with
+    | (_, Some v) => (o0 ++ [OBegin n], Ok (st1, v))
+    | (r1, None) =>
+      match crt (set_reg st1 r1) n with
+      | (o1, Ok (st2, v)) =>
+        (o0 ++ OBegin n :: o1 ++ [OEndOk n v], Ok (set_reg st2 (end_create_ok (reg st2) n v), v))
+      | (o1, Fail (FErr e) st2) =>
+        (o0 ++ OBegin n :: o1 ++ [OEndErr n], Fail (FErr e) (set_reg st2 (end_create_err vt (reg st2) n)))
+      | (o1, Fail k st2) => (o0 ++ OBegin n :: o1, Fail k st2)
+      end
+    end
+  | Fail k st1 => (o0, Fail k st1)
+  end.
+
 Section WithRecT.
   Variable vt : variant.
   Variable s : scenario.
@@ -111,24 +132,7 @@ Section WithRecT.
       end
     else ([], Fail (FErr ENoDef) st).
 
-  Definition body_t (st : fstate) (n : name) : tres (fstate * ver) :=
-    let (o0, r0) := get_singleton_t s st n true in
-    match r0 with
-    | Ok (st1, Some v) => (o0, Ok (st1, v))
-    | Ok (st1, None) =>
-      match begin_create (reg st1) n with
-      | (_, Some v) => (o0 ++ [OBegin n], Ok (st1, v))
-      | (r1, None) =>
-        match create_t (set_reg st1 r1) n with
-        | (o1, Ok (st2, v)) =>
-          (o0 ++ OBegin n :: o1 ++ [OEndOk n v], Ok (set_reg st2 (end_create_ok (reg st2) n v), v))
-        | (o1, Fail (FErr e) st2) =>
-          (o0 ++ OBegin n :: o1 ++ [OEndErr n], Fail (FErr e) (set_reg st2 (end_create_err vt (reg st2) n)))
-        | (o1, Fail k st2) => (o0 ++ OBegin n :: o1, Fail k st2)
-        end
-      end
-    | Fail k st1 => (o0, Fail k st1)
-    end.
+  Definition body_t (st : fstate) (n : name) : tres (fstate * ver) := body_with vt s create_t st n.
 End WithRecT.
 
 Fixpoint do_get_t (vt : variant) (s : scenario) (fuel : nat) (st : fstate) (n : name)
